@@ -72,6 +72,8 @@ def universe_for(prefixes):
     u = ["o.txt", "o", "o/z.txt", "mx/k.txt", "p/k.txt", "m/hidden.txt", "p"]
     for p in POOL:
         u += [p, p + "/x.txt", p + "/d", p + "/d/y.txt"]
+    for p in prefixes:
+        u += [p + "/d/" + p + "/y.txt", p + "/d/" + p]  # the mount prefix repeated deeper in the key
     return sorted(set(u))
 
 
@@ -133,7 +135,8 @@ def make_case_factory(scn, scratch, counters=None):
                     view.dirs.add(k)
         view = SM.StoreModel(view.files, view.dirs, pinned)
         built = storecfg.Built(mps, leaves + ([dleaf] if dleaf is not None else []), cleanup=cleanup, pinned=pinned)
-        part_unis = [sorted(set(["x.txt", "d", "d/y.txt", "k.json", "sub", "sub/in.txt", "z", "z/w.txt"])) for _ in leaves]
+        part_unis = [sorted(set(["x.txt", "d", "d/y.txt", "k.json", "sub", "sub/in.txt", "z", "z/w.txt",
+                                 "d/" + p, "d/" + p + "/y.txt"])) for p in prefixes]
         d_uni = ["o.txt", "o", "o/z.txt", "mx/k.txt", "p/k.txt", "m/hidden.txt", "m", "p/q/hid.txt", "n/h2.txt", "m/sub/deep.txt", "p"]
 
         def extra(i_step, op, m):
